@@ -95,6 +95,19 @@ def run(chk):
     # ------------------------------------------------------------------ R4 prefix symmetry
     r4 = chk.rule("C04.R4", "prefix symmetry: every key-addressed command validates and sends its key with self.key_prefix")
     prefix_symmetry(prog, r4)
+    # ------------------------------------------------------------------ R5 serializer tables (re-run of the C15 rules)
+    r5 = chk.rule("C04.R5", "values written through the pickle / compressed serializers are read back through the inverse decoder: the C15 dispatch and compression-flag tables hold")
+    from . import rules_C15, report
+
+    sub = report.Check("C04", prog, tier=chk.tier, seed=chk.seed)
+    rules_C15.run(sub)
+    n_sub = 0
+    for r in sub.rules:
+        if r.id in ("C15.R2", "C15.R3", "C15.R5"):
+            n_sub += r.obligations
+            for fnd in r.findings:
+                r5.fail("via-" + fnd.key, "a stored value does not come back: " + fnd.msg, file=fnd.file, line=fnd.line)
+    r5.ok("serializer writer/reader tables and the COMPRESSED flag decision agree (%d obligations of C15.R2/R3/R5 re-checked)" % n_sub)
     # the prefix never leaks into results: fetch results are keyed through the remap (R3); stats/cache_memlimit use b""
     chk.assume("a faithful memcached returns exactly the bytes it was given; serializer round trips are C15")
 
